@@ -57,9 +57,12 @@ def run(unit_path, workdir, extra=None, timeout=900, multiple_errors=20, rlimit=
         p = subprocess.run(cmd, cwd=workdir, capture_output=True, text=True, timeout=timeout)
         out, err, rc = p.stdout, p.stderr, p.returncode
     except subprocess.TimeoutExpired as e:
-        out, err, rc = (e.stdout or ""), (e.stderr or "") + "\nTIMEOUT", 124
+        out, err, rc = (e.stdout or ""), (e.stderr or ""), 124
         if isinstance(out, bytes):
             out = out.decode("utf-8", "replace")
+        if isinstance(err, bytes):
+            err = err.decode("utf-8", "replace")
+        err += "\nTIMEOUT"
         if isinstance(err, bytes):
             err = err.decode("utf-8", "replace")
     wall = time.time() - t0
